@@ -366,6 +366,8 @@ type TypeOps struct {
 	GrowCap func(l, c, n int) int
 	// Probes builds the steady-state operations of this type for C18.
 	Probes func(ch, length int) []Probe
+	// SelfPair are the transfer functions between []T and Buffer[T].
+	SelfPair *PairOps
 }
 
 func mkOps[T signal.SignalTypes](name string, named bool, base int) *TypeOps {
@@ -381,7 +383,7 @@ func mkOps[T signal.SignalTypes](name string, named bool, base int) *TypeOps {
 		ti.Kind = KUint
 	}
 	k := ti.Kind
-	return &TypeOps{
+	ops := &TypeOps{
 		TypeInfo:  ti,
 		SizeOf:    int(rt.Size()),
 		GrowCap:   func(l, c, n int) int { return cap(append(make([]T, l, c), make([]T, n)...)) },
@@ -438,6 +440,8 @@ func mkOps[T signal.SignalTypes](name string, named bool, base int) *TypeOps {
 			}
 		},
 	}
+	ops.SelfPair = mkPair[T, T](ops, ops)
+	return ops
 }
 
 // PairOps are the four transfer functions for one (slice type, buffer type)
@@ -490,4 +494,37 @@ func mkScale[T interface {
 	return &ScaleOp{T: t, Call: func(h, l int) Val {
 		return toVal(t.Kind, signal.Scale[T](signal.BitDepth(h), signal.BitDepth(l)))
 	}}
+}
+
+// AllConvs returns the 169 built-in instantiations followed by the extra ones
+// over named element types.
+func AllConvs() []*ConvOp { return append(append([]*ConvOp(nil), Convs...), ExtraConvs...) }
+
+// AllPairs returns the 169 built-in transfer pairs followed by the extra ones.
+func AllPairs() []*PairOps {
+	var ps []*PairOps
+	for i := range Pairs {
+		for j := range Pairs[i] {
+			ps = append(ps, Pairs[i][j])
+		}
+	}
+	return append(ps, ExtraPairs...)
+}
+
+// SomeNamed are the named element types used next to the built-in ones by
+// monitors that iterate over element types.
+func SomeNamed() []*TypeOps {
+	var ts []*TypeOps
+	for _, t := range Types[NBuiltin:] {
+		switch t.Name {
+		case "NInt8", "NInt64", "NUint16", "NFloat32":
+			ts = append(ts, t)
+		}
+	}
+	return ts
+}
+
+// ElemTypes returns the 13 built-in element types plus SomeNamed.
+func ElemTypes() []*TypeOps {
+	return append(append([]*TypeOps(nil), Types[:NBuiltin]...), SomeNamed()...)
 }
